@@ -180,16 +180,18 @@ theorem insertRow_spec (schema : List FieldDef) (cols : List String) (vals row :
     simp only at h
     split at h
     · cases h
-    · rename_i bs henc
-      split at h
+    · split at h
       · cases h
-      · obtain ⟨m, hm1, hm2, _⟩ := decode_encode_aux schema _ hvals hnd bs [] []
-          (by intros; rfl) henc
-        rw [List.append_nil] at hm1
-        rw [hm1] at h
-        simp only [Option.some.injEq] at h
-        rw [← h]
-        exact List.map_congr_left fun fd hfd => hm2 fd hfd
+      · rename_i bs henc
+        split at h
+        · cases h
+        · obtain ⟨m, hm1, hm2, _⟩ := decode_encode_aux schema _ hvals hnd bs [] []
+            (by intros; rfl) henc
+          rw [List.append_nil] at hm1
+          rw [hm1] at h
+          simp only [Option.some.injEq] at h
+          rw [← h]
+          exact List.map_congr_left fun fd hfd => hm2 fd hfd
 
 /-! ### main theorem -/
 
